@@ -183,7 +183,9 @@ func (r Rules) Merge() Rules {
 
 			if r[i].Merge(r[j]) {
 				r = r.Delete(j)
-				j--
+				// r[i] has grown and may now merge with rules already passed: start over
+				i = -1
+				break
 			}
 		}
 	}
